@@ -30,6 +30,12 @@
 //     namespace: statements as in the loop plus `return` anywhere; no recursion). A helper outside the subset (e.g. one
 //     that loops) called directly from the kernel body becomes an ABSTRACT function argument of guard/pre/init/step
 //     (reported as such: its body is not tied).
+//   - in a helper: `for i := 0; i < N; i++ { … }` with a constant N, `i` unused, `break` / `continue` allowed
+//     (`boundedLoop body N carried`, the carried tuple = the outer variables the body assigns, in declaration order)
+//   - `v, err := pkg.F(args…); if err != nil { panic(err) }` with F a function of the module with results (float64, error)
+//     that takes whole series (fn.Piecewise): F is NOT translated, it is an argument of `step` of type
+//     α → σ → … → Option α (σ: the abstract type of a whole series); `panic(…)` ends the step with `none` (`step` then
+//     returns an Option); fmt.Print* statements are ignored; an `int` parameter is accepted when the body does not use it
 //   - after the loop: one `return` of variables (the state variables, in order)
 //
 // Semantics the translation relies on (= Go's for this subset): operands are pure, so evaluation order is irrelevant
